@@ -145,7 +145,7 @@ namespace BarterModel.Generated.Machines
   `1000` / `1` ms; `a.max(b)` on `TimeDelta` is the greater; `Decimal::from(<i64>)` is the inclusion `Int → Rat`.
 * `x.sqrt()` on a `Decimal` (rust_decimal's `MathematicalOps::sqrt`, NOT `statistic::algorithm::sqrt`) is a built-in
   extern: the explicit parameter `decimal_sqrt : Rat → Option Rat`, about which nothing is assumed.
-* `a.cmp(&b)` on `Decimal` is `Decimal.cmp` into `std::cmp::Ordering` (below).
+* `a.cmp(&b)` on `Decimal` is `Decimal.cmp` into `std::cmp::Ordering` (prelude of Machines.lean).
 * `Utc::now()` is an INPUT: the explicit parameter `utc_now : Int` (ms, like every `DateTime`) of the function that
   reads it; a function may read it once only (two readings would be two different inputs: rejected), and functions
   that take it cannot be called from translated code. `t.add(d)` on a `DateTime` is `t + d`; `x.abs()` on `i64` is
@@ -155,16 +155,6 @@ namespace BarterModel.Generated.Machines
   the content; `let mut g = <place>.write();` binds `g` to the content as a mutable local whose every change is
   written back to the place at once (as for `&mut`, see above); `drop(g);` has no effect.
 * In a `match` with guards an arm `x if c => ..` names the (pure) scrutinee `x`. -/
-
-/-- `std::cmp::Ordering`. -/
-inductive Ordering where
-  | Less
-  | Equal
-  | Greater
-  deriving DecidableEq, Repr
-
-/-- `Ord::cmp` of `Decimal` (a total order; rust_decimal compares values, not representations). -/
-def Decimal.cmp (x y : Rat) : Ordering := if x < y then Ordering.Less else if x = y then Ordering.Equal else Ordering.Greater
 
 /-- The four comparison methods of `PartialOrd` for a type parameter (see above). -/
 structure Rust.PartialOrd (T : Type) where
@@ -190,11 +180,11 @@ abbrev F64 := Nat
 -- `extern sqrt` (barter/src/statistic/algorithm.rs:53) extern: NOT translated (only its signature `sqrt : Rat → Option Rat` is read); the definitions below that call it take it as an explicit parameter `(sqrt : Rat → Option Rat)`
 
 /-- generated from `mod welford_online :: fn calculate_recurrence_relation_m` (barter/src/statistic/algorithm.rs:16) -/
-def welford_online.calculate_recurrence_relation_m (prev_m : Rat) (prev_mean : Rat) (new_value : Rat) (new_mean : Rat) : Rat :=
+@[gen_dataset] def welford_online.calculate_recurrence_relation_m (prev_m : Rat) (prev_mean : Rat) (new_value : Rat) (new_mean : Rat) : Rat :=
   (prev_m + ((new_value - prev_mean) * (new_value - new_mean)))
 
 /-- generated from `mod welford_online :: fn calculate_population_variance` (barter/src/statistic/algorithm.rs:35) -/
-def welford_online.calculate_population_variance (recurrence_relation_m : Rat) (count : Rat) : Rat :=
+@[gen_dataset] def welford_online.calculate_population_variance (recurrence_relation_m : Rat) (count : Rat) : Rat :=
   (if (count < 1) then
     0
   else
@@ -210,15 +200,15 @@ structure Range where
   deriving DecidableEq, Repr
 
 /-- generated from `derive_default Range` (barter/src/statistic/summary/dataset/dispersion.rs:47) -/
-def Range.default : Range :=
+@[gen_dataset] def Range.default : Range :=
   { activated := false, high := 0, low := 0 }
 
 /-- generated from `impl Range :: fn init` (barter/src/statistic/summary/dataset/dispersion.rs:55) -/
-def Range.init (first_value : Rat) : Range :=
+@[gen_dataset] def Range.init (first_value : Rat) : Range :=
   { activated := true, high := first_value, low := first_value : Range }
 
 /-- generated from `impl Range :: fn update` (barter/src/statistic/summary/dataset/dispersion.rs:64) -/
-def Range.update (self : Range) (new_value : Rat) : Range :=
+@[gen_dataset] def Range.update (self : Range) (new_value : Rat) : Range :=
   (if (self.activated = true) then
     (if (new_value > self.high) then
       let self : Range := { self with high := new_value }
@@ -240,7 +230,7 @@ def Range.update (self : Range) (new_value : Rat) : Range :=
     self)
 
 /-- generated from `impl Range :: fn range` (barter/src/statistic/summary/dataset/dispersion.rs:81) -/
-def Range.range (self : Range) : Rat :=
+@[gen_dataset] def Range.range (self : Range) : Rat :=
   (self.high - self.low)
 
 /-- generated from `struct Dispersion` (barter/src/statistic/summary/dataset/dispersion.rs:7) -/
@@ -252,11 +242,11 @@ structure Dispersion where
   deriving DecidableEq, Repr
 
 /-- generated from `derive_default Dispersion` (barter/src/statistic/summary/dataset/dispersion.rs:7) -/
-def Dispersion.default : Dispersion :=
+@[gen_dataset] def Dispersion.default : Dispersion :=
   { range := Range.default, recurrence_relation_m := 0, variance := 0, std_dev := 0 }
 
 /-- generated from `impl Dispersion :: fn update` (barter/src/statistic/summary/dataset/dispersion.rs:17) -/
-def Dispersion.update (sqrt : Rat → Option Rat) (self : Dispersion) (prev_mean : Rat) (new_mean : Rat) (new_value : Rat) (value_count : Rat) : Dispersion :=
+@[gen_dataset] def Dispersion.update (sqrt : Rat → Option Rat) (self : Dispersion) (prev_mean : Rat) (new_mean : Rat) (new_value : Rat) (value_count : Rat) : Dispersion :=
   let self : Dispersion := { self with range := (Range.update self.range new_value) }
   let self : Dispersion := { self with recurrence_relation_m := (welford_online.calculate_recurrence_relation_m self.recurrence_relation_m prev_mean new_value new_mean) }
   let self : Dispersion := { self with variance := (welford_online.calculate_population_variance self.recurrence_relation_m value_count) }
@@ -274,11 +264,13 @@ structure DataSetSummary where
   deriving DecidableEq, Repr
 
 /-- generated from `derive_default DataSetSummary` (barter/src/statistic/summary/dataset/mod.rs:46) -/
-def DataSetSummary.default : DataSetSummary :=
+@[gen_dataset] def DataSetSummary.default : DataSetSummary :=
   { count := 0, sum := 0, mean := 0, dispersion := Dispersion.default }
 
+attribute [gen_dataset] welford_online.calculate_mean_Decimal
+
 /-- generated from `impl DataSetSummary :: fn update` (barter/src/statistic/summary/dataset/mod.rs:61) -/
-def DataSetSummary.update (sqrt : Rat → Option Rat) (self : DataSetSummary) (next_value : Rat) : DataSetSummary :=
+@[gen_dataset] def DataSetSummary.update (sqrt : Rat → Option Rat) (self : DataSetSummary) (next_value : Rat) : DataSetSummary :=
   let self : DataSetSummary := { self with count := (self.count + 1) }
   let self : DataSetSummary := { self with sum := (self.sum + next_value) }
   let prev_mean : Rat := self.mean
@@ -289,7 +281,7 @@ def DataSetSummary.update (sqrt : Rat → Option Rat) (self : DataSetSummary) (n
 /-! ## barter/src/engine/state/position.rs -/
 
 /-- generated from `fn calculate_pnl_return` (barter/src/engine/state/position.rs:549) -/
-def calculate_pnl_return (pnl_realised : Rat) (price_entry_average : Rat) (quantity_abs_max : Rat) : Rat :=
+@[gen_pnl_returns] def calculate_pnl_return (pnl_realised : Rat) (price_entry_average : Rat) (quantity_abs_max : Rat) : Rat :=
   (pnl_realised / (price_entry_average * quantity_abs_max))
 
 /-! ## barter/src/statistic/summary/pnl.rs -/
@@ -302,11 +294,11 @@ structure PnLReturns where
   deriving DecidableEq, Repr
 
 /-- generated from `derive_default PnLReturns` (barter/src/statistic/summary/pnl.rs:23) -/
-def PnLReturns.default : PnLReturns :=
+@[gen_pnl_returns] def PnLReturns.default : PnLReturns :=
   { pnl_raw := 0, total := DataSetSummary.default, losses := DataSetSummary.default }
 
 /-- generated from `impl PnLReturns :: fn update` (barter/src/statistic/summary/pnl.rs:43) -/
-def PnLReturns.update {AssetKey : Type} [DecidableEq AssetKey] {InstrumentKey : Type} [DecidableEq InstrumentKey] (sqrt : Rat → Option Rat) (self : PnLReturns) (position : PositionExited AssetKey InstrumentKey) : PnLReturns :=
+@[gen_pnl_returns] def PnLReturns.update {AssetKey : Type} [DecidableEq AssetKey] {InstrumentKey : Type} [DecidableEq InstrumentKey] (sqrt : Rat → Option Rat) (self : PnLReturns) (position : PositionExited AssetKey InstrumentKey) : PnLReturns :=
   let self : PnLReturns := { self with pnl_raw := (self.pnl_raw + position.pnl_realised) }
   let pnl_return : Rat := (calculate_pnl_return position.pnl_realised position.price_entry_average position.quantity_abs_max)
   let self : PnLReturns := { self with total := (DataSetSummary.update sqrt self.total pnl_return) }
@@ -319,25 +311,25 @@ def PnLReturns.update {AssetKey : Type} [DecidableEq AssetKey] {InstrumentKey : 
 /-! ## barter/src/lib.rs -/
 
 /-- generated from `derive_new Timed` (barter/src/lib.rs:108) -/
-def Timed.new {T : Type} [DecidableEq T] (value : T) (time : Int) : Timed T :=
+@[gen_pnl_returns] def Timed.new {T : Type} [DecidableEq T] (value : T) (time : Int) : Timed T :=
   { value := value, time := time }
 
 /-! ## barter/src/statistic/metric/drawdown/mod.rs -/
 
 /-- generated from `derive_default DrawdownGenerator` (barter/src/statistic/metric/drawdown/mod.rs:38) -/
-def DrawdownGenerator.default : DrawdownGenerator :=
+@[gen_pnl_returns] def DrawdownGenerator.default : DrawdownGenerator :=
   { peak := none, drawdown_max := 0, time_peak := none, time_now := 0 }
 
 /-! ## barter/src/statistic/metric/drawdown/mean.rs -/
 
 /-- generated from `derive_default MeanDrawdownGenerator` (barter/src/statistic/metric/drawdown/mean.rs:16) -/
-def MeanDrawdownGenerator.default : MeanDrawdownGenerator :=
+@[gen_pnl_returns] def MeanDrawdownGenerator.default : MeanDrawdownGenerator :=
   { count := 0, mean_drawdown := none }
 
 /-! ## barter/src/statistic/metric/drawdown/max.rs -/
 
 /-- generated from `derive_default MaxDrawdownGenerator` (barter/src/statistic/metric/drawdown/max.rs:17) -/
-def MaxDrawdownGenerator.default : MaxDrawdownGenerator :=
+@[gen_pnl_returns] def MaxDrawdownGenerator.default : MaxDrawdownGenerator :=
   { max := none }
 
 /-! ## barter/src/statistic/summary/instrument.rs -/
@@ -353,11 +345,11 @@ structure TearSheetGenerator where
   deriving DecidableEq, Repr
 
 /-- generated from `impl TearSheetGenerator :: fn init` (barter/src/statistic/summary/instrument.rs:58) -/
-def TearSheetGenerator.init (time_engine_start : Int) : TearSheetGenerator :=
+@[gen_pnl_returns] def TearSheetGenerator.init (time_engine_start : Int) : TearSheetGenerator :=
   { time_engine_start := time_engine_start, time_engine_now := time_engine_start, pnl_returns := (PnLReturns.default), pnl_drawdown := (DrawdownGenerator.default), pnl_drawdown_mean := (MeanDrawdownGenerator.default), pnl_drawdown_max := (MaxDrawdownGenerator.default) : TearSheetGenerator }
 
 /-- generated from `impl TearSheetGenerator :: fn update_from_position` (barter/src/statistic/summary/instrument.rs:70) -/
-def TearSheetGenerator.update_from_position {AssetKey : Type} [DecidableEq AssetKey] {InstrumentKey : Type} [DecidableEq InstrumentKey] (sqrt : Rat → Option Rat) (self : TearSheetGenerator) (position : PositionExited AssetKey InstrumentKey) : TearSheetGenerator :=
+@[gen_pnl_returns] def TearSheetGenerator.update_from_position {AssetKey : Type} [DecidableEq AssetKey] {InstrumentKey : Type} [DecidableEq InstrumentKey] (sqrt : Rat → Option Rat) (self : TearSheetGenerator) (position : PositionExited AssetKey InstrumentKey) : TearSheetGenerator :=
   let self : TearSheetGenerator := { self with time_engine_now := position.time_exit }
   let self : TearSheetGenerator := { self with pnl_returns := (PnLReturns.update sqrt self.pnl_returns position) }
   let call_1 := DrawdownGenerator.update self.pnl_drawdown (Timed.new self.pnl_returns.pnl_raw self.time_engine_now)
@@ -393,7 +385,7 @@ structure Snapshot (T : Type) where
   deriving DecidableEq, Repr
 
 /-- generated from `impl Snapshot :: fn value` (barter-integration/src/snapshot.rs:21) -/
-def Snapshot.value {T : Type} [DecidableEq T] (self : Snapshot T) : T :=
+@[gen_registers] def Snapshot.value {T : Type} [DecidableEq T] (self : Snapshot T) : T :=
   self.f0
 
 /-! ## barter/src/statistic/summary/asset.rs -/
@@ -407,11 +399,11 @@ structure TearSheetAssetGenerator where
   deriving DecidableEq, Repr
 
 /-- generated from `derive_default TearSheetAssetGenerator` (barter/src/statistic/summary/asset.rs:24) -/
-def TearSheetAssetGenerator.default : TearSheetAssetGenerator :=
+@[gen_registers] def TearSheetAssetGenerator.default : TearSheetAssetGenerator :=
   { balance_now := none, drawdown := DrawdownGenerator.default, drawdown_mean := MeanDrawdownGenerator.default, drawdown_max := MaxDrawdownGenerator.default }
 
 /-- generated from `impl TearSheetAssetGenerator :: fn update_from_balance` (barter/src/statistic/summary/asset.rs:43) -/
-def TearSheetAssetGenerator.update_from_balance {AssetKey : Type} [DecidableEq AssetKey] (self : TearSheetAssetGenerator) (balance : Snapshot (AssetBalance AssetKey)) : TearSheetAssetGenerator :=
+@[gen_registers] def TearSheetAssetGenerator.update_from_balance {AssetKey : Type} [DecidableEq AssetKey] (self : TearSheetAssetGenerator) (balance : Snapshot (AssetBalance AssetKey)) : TearSheetAssetGenerator :=
   let self : TearSheetAssetGenerator := { self with balance_now := (some ((Snapshot.value balance).balance)) }
   let call_1 := DrawdownGenerator.update self.drawdown (Timed.new (((Snapshot.value balance).balance).total) ((Snapshot.value balance).time_exchange))
   let self : TearSheetAssetGenerator := { self with drawdown := call_1.1 }
@@ -439,7 +431,7 @@ structure AssetState where
   deriving DecidableEq, Repr
 
 /-- generated from `impl AssetState :: fn update_from_balance` (barter/src/engine/state/asset/mod.rs:115) -/
-def AssetState.update_from_balance {AssetKey : Type} [DecidableEq AssetKey] (self : AssetState) (snapshot : Snapshot (AssetBalance AssetKey)) : AssetState :=
+@[gen_registers] def AssetState.update_from_balance {AssetKey : Type} [DecidableEq AssetKey] (self : AssetState) (snapshot : Snapshot (AssetBalance AssetKey)) : AssetState :=
   (match self.balance with
   | none =>
     let self : AssetState := { self with balance := (some (Timed.new snapshot.f0.balance snapshot.f0.time_exchange)) }
@@ -465,7 +457,7 @@ structure Level where
   deriving DecidableEq, Repr
 
 /-- generated from `fn volume_weighted_mid_price` (barter-data/src/books/mod.rs:309) -/
-def volume_weighted_mid_price (best_bid : Level) (best_ask : Level) : Rat :=
+@[gen_registers] def volume_weighted_mid_price (best_bid : Level) (best_ask : Level) : Rat :=
   (((best_bid.price * best_ask.amount) + (best_ask.price * best_bid.amount)) / (best_bid.amount + best_ask.amount))
 
 /-! ## barter-data/src/subscription/book.rs -/
@@ -478,11 +470,11 @@ structure OrderBookL1 where
   deriving DecidableEq, Repr
 
 /-- generated from `derive_default OrderBookL1` (barter-data/src/subscription/book.rs:36) -/
-def OrderBookL1.default : OrderBookL1 :=
+@[gen_registers] def OrderBookL1.default : OrderBookL1 :=
   { last_update_time := 0, best_bid := none, best_ask := none }
 
 /-- generated from `impl OrderBookL1 :: fn volume_weighed_mid_price` (barter-data/src/subscription/book.rs:57) -/
-def OrderBookL1.volume_weighed_mid_price (self : OrderBookL1) : Option Rat :=
+@[gen_registers] def OrderBookL1.volume_weighed_mid_price (self : OrderBookL1) : Option Rat :=
   (match (self.best_ask, self.best_bid) with
   | (some best_ask, some best_bid) =>
       (some (volume_weighted_mid_price best_bid best_ask))
@@ -534,15 +526,15 @@ structure DefaultInstrumentMarketData where
   deriving DecidableEq, Repr
 
 /-- generated from `derive_default DefaultInstrumentMarketData` (barter/src/engine/state/instrument/data.rs:63) -/
-def DefaultInstrumentMarketData.default : DefaultInstrumentMarketData :=
+@[gen_registers] def DefaultInstrumentMarketData.default : DefaultInstrumentMarketData :=
   { l1 := OrderBookL1.default, last_traded_price := none }
 
 /-- generated from `impl InstrumentDataState for DefaultInstrumentMarketData :: fn price` (barter/src/engine/state/instrument/data.rs:71) -/
-def DefaultInstrumentMarketData.price (self : DefaultInstrumentMarketData) : Option Rat :=
+@[gen_registers] def DefaultInstrumentMarketData.price (self : DefaultInstrumentMarketData) : Option Rat :=
   (match (OrderBookL1.volume_weighed_mid_price self.l1) with | some some_1 => some some_1 | none => (match self.last_traded_price with | none => none | some timed => some timed.value))
 
 /-- generated from `impl Processor<&MarketEvent<InstrumentKey, DataKind>> for DefaultInstrumentMarketData :: fn process` (barter/src/engine/state/instrument/data.rs:83) -/
-def DefaultInstrumentMarketData.process {InstrumentKey : Type} [DecidableEq InstrumentKey] (from_f64 : F64 → Option Rat) (self : DefaultInstrumentMarketData) (event : MarketEvent InstrumentKey DataKind) : DefaultInstrumentMarketData :=
+@[gen_registers] def DefaultInstrumentMarketData.process {InstrumentKey : Type} [DecidableEq InstrumentKey] (from_f64 : F64 → Option Rat) (self : DefaultInstrumentMarketData) (event : MarketEvent InstrumentKey DataKind) : DefaultInstrumentMarketData :=
   (match event.kind with
   | DataKind.Trade trade =>
     (if ((match self.last_traded_price with | none => true | some price => (decide (price.time < event.time_exchange))) = true) then
@@ -572,11 +564,11 @@ structure RiskApproved (T : Type) where
   deriving DecidableEq, Repr
 
 /-- generated from `derive_new RiskApproved` (barter/src/risk/mod.rs:55) -/
-def RiskApproved.new {T : Type} [DecidableEq T] (f0 : T) : RiskApproved T :=
+@[gen_risk] def RiskApproved.new {T : Type} [DecidableEq T] (f0 : T) : RiskApproved T :=
   { f0 := f0 }
 
 /-- generated from `impl RiskApproved :: fn into_item` (barter/src/risk/mod.rs:58) -/
-def RiskApproved.into_item {T : Type} [DecidableEq T] (self : RiskApproved T) : T :=
+@[gen_risk] def RiskApproved.into_item {T : Type} [DecidableEq T] (self : RiskApproved T) : T :=
   self.f0
 
 /-- generated from `struct RiskRefused` (barter/src/risk/mod.rs:66) -/
@@ -586,7 +578,7 @@ structure RiskRefused (T : Type) (Reason : Type) where
   deriving DecidableEq, Repr
 
 /-- generated from `impl RiskRefused<T, Reason> :: fn into_item` (barter/src/risk/mod.rs:81) -/
-def RiskRefused.into_item {T : Type} [DecidableEq T] {Reason : Type} [DecidableEq Reason] (self : RiskRefused T Reason) : T :=
+@[gen_risk] def RiskRefused.into_item {T : Type} [DecidableEq T] {Reason : Type} [DecidableEq Reason] (self : RiskRefused T Reason) : T :=
   self.item
 
 /-! ## barter/src/risk/check/mod.rs -/
@@ -597,7 +589,7 @@ structure CheckHigherThan (T : Type) where
   deriving DecidableEq, Repr
 
 /-- generated from `derive_new CheckHigherThan` (barter/src/risk/check/mod.rs:30) -/
-def CheckHigherThan.new {T : Type} [DecidableEq T] (limit : T) : CheckHigherThan T :=
+@[gen_risk] def CheckHigherThan.new {T : Type} [DecidableEq T] (limit : T) : CheckHigherThan T :=
   { limit := limit }
 
 /-- generated from `struct CheckFailHigherThan` (barter/src/risk/check/mod.rs:63) -/
@@ -607,7 +599,7 @@ structure CheckFailHigherThan (T : Type) where
   deriving DecidableEq, Repr
 
 /-- generated from `impl RiskCheck for CheckHigherThan :: fn check` (barter/src/risk/check/mod.rs:46) -/
-def CheckHigherThan.check {T : Type} [DecidableEq T] (T_ord : Rust.PartialOrd T) (self : CheckHigherThan T) (input : T) : Except (CheckFailHigherThan T) Unit :=
+@[gen_risk] def CheckHigherThan.check {T : Type} [DecidableEq T] (T_ord : Rust.PartialOrd T) (self : CheckHigherThan T) (input : T) : Except (CheckFailHigherThan T) Unit :=
   (if ((T_ord.le input self.limit) = true) then
     (Except.ok ())
   else
@@ -616,14 +608,14 @@ def CheckHigherThan.check {T : Type} [DecidableEq T] (T_ord : Rust.PartialOrd T)
 /-! ## barter/src/risk/check/util.rs -/
 
 /-- generated from `fn calculate_quote_notional` (barter/src/risk/check/util.rs:16) -/
-def calculate_quote_notional (quantity : Rat) (price : Rat) (contract_size : Rat) : Option Rat :=
+@[gen_risk] def calculate_quote_notional (quantity : Rat) (price : Rat) (contract_size : Rat) : Option Rat :=
   (match (Decimal.checked_mul quantity price) with
   | none => none
   | some try_1 =>
     (Decimal.checked_mul try_1 contract_size))
 
 /-- generated from `fn calculate_abs_percent_difference` (barter/src/risk/check/util.rs:28) -/
-def calculate_abs_percent_difference (current : Rat) (other : Rat) : Option Rat :=
+@[gen_risk] def calculate_abs_percent_difference (current : Rat) (other : Rat) : Option Rat :=
   (match (Decimal.checked_sub current other) with
   | none => none
   | some try_1 =>
@@ -631,7 +623,7 @@ def calculate_abs_percent_difference (current : Rat) (other : Rat) : Option Rat 
     (Decimal.checked_div price_diff other))
 
 /-- generated from `fn calculate_delta` (barter/src/risk/check/util.rs:50) -/
-def calculate_delta (instrument_delta : Rat) (contract_size : Rat) (side : Side) (quantity_in_kind : Rat) : Rat :=
+@[gen_risk] def calculate_delta (instrument_delta : Rat) (contract_size : Rat) (side : Side) (quantity_in_kind : Rat) : Rat :=
   let delta : Rat := (instrument_delta * (quantity_in_kind * contract_size))
   (match side with
   | Side.Buy =>
@@ -652,7 +644,7 @@ inductive Annual365 where
   deriving DecidableEq, Repr
 
 /-- generated from `impl TimeInterval for Annual365 :: fn interval` (barter/src/statistic/time.rs:43) -/
-def Annual365.interval (self : Annual365) : Int :=
+@[gen_metrics] def Annual365.interval (self : Annual365) : Int :=
   (365 * 86400000)
 
 /-- generated from `struct Annual252` (barter/src/statistic/time.rs:49) -/
@@ -661,7 +653,7 @@ inductive Annual252 where
   deriving DecidableEq, Repr
 
 /-- generated from `impl TimeInterval for Annual252 :: fn interval` (barter/src/statistic/time.rs:56) -/
-def Annual252.interval (self : Annual252) : Int :=
+@[gen_metrics] def Annual252.interval (self : Annual252) : Int :=
   (252 * 86400000)
 
 /-- generated from `struct Daily` (barter/src/statistic/time.rs:62) -/
@@ -670,7 +662,7 @@ inductive Daily where
   deriving DecidableEq, Repr
 
 /-- generated from `impl TimeInterval for Daily :: fn interval` (barter/src/statistic/time.rs:69) -/
-def Daily.interval (self : Daily) : Int :=
+@[gen_metrics] def Daily.interval (self : Daily) : Int :=
   (1 * 86400000)
 
 /-! ## barter/src/statistic/metric/sharpe.rs -/
@@ -682,7 +674,7 @@ structure SharpeRatio (Interval : Type) where
   deriving DecidableEq, Repr
 
 /-- generated from `impl SharpeRatio :: fn calculate` (barter/src/statistic/metric/sharpe.rs:22) -/
-def SharpeRatio.calculate {Interval : Type} [DecidableEq Interval] (risk_free_return : Rat) (mean_return : Rat) (std_dev_returns : Rat) (returns_period : Interval) : SharpeRatio Interval :=
+@[gen_metrics] def SharpeRatio.calculate {Interval : Type} [DecidableEq Interval] (risk_free_return : Rat) (mean_return : Rat) (std_dev_returns : Rat) (returns_period : Interval) : SharpeRatio Interval :=
   (if (std_dev_returns = 0) then
     { value := Decimal.MAX, interval := returns_period : SharpeRatio Interval }
   else
@@ -691,7 +683,7 @@ def SharpeRatio.calculate {Interval : Type} [DecidableEq Interval] (risk_free_re
      { value := ratio, interval := returns_period : SharpeRatio Interval }))
 
 /-- generated from `impl SharpeRatio :: fn scale` (barter/src/statistic/metric/sharpe.rs:46) -/
-def SharpeRatio.scale {Interval : Type} [DecidableEq Interval] {TargetInterval : Type} [DecidableEq TargetInterval] (TargetInterval_TimeInterval : TimeInterval TargetInterval) (Interval_TimeInterval : TimeInterval Interval) (decimal_sqrt : Rat → Option Rat) (self : SharpeRatio Interval) (target : TargetInterval) : SharpeRatio TargetInterval :=
+@[gen_metrics] def SharpeRatio.scale {Interval : Type} [DecidableEq Interval] {TargetInterval : Type} [DecidableEq TargetInterval] (TargetInterval_TimeInterval : TimeInterval TargetInterval) (Interval_TimeInterval : TimeInterval Interval) (decimal_sqrt : Rat → Option Rat) (self : SharpeRatio Interval) (target : TargetInterval) : SharpeRatio TargetInterval :=
   let target_secs : Rat := (((Int.tdiv (TargetInterval_TimeInterval.interval target) 1000) : Int) : Rat)
   let current_secs : Rat := (((Int.tdiv (Interval_TimeInterval.interval self.interval) 1000) : Int) : Rat)
   let scale : Rat := (match (decimal_sqrt (match (Decimal.checked_div (Decimal.abs target_secs) (Decimal.abs current_secs)) with | some some_1 => some_1 | none => Decimal.MAX)) with | some some_2 => some_2 | none => Rust.unreachable)
@@ -706,7 +698,7 @@ structure SortinoRatio (Interval : Type) where
   deriving DecidableEq, Repr
 
 /-- generated from `impl SortinoRatio :: fn calculate` (barter/src/statistic/metric/sortino.rs:22) -/
-def SortinoRatio.calculate {Interval : Type} [DecidableEq Interval] (risk_free_return : Rat) (mean_return : Rat) (std_dev_loss_returns : Rat) (returns_period : Interval) : SortinoRatio Interval :=
+@[gen_metrics] def SortinoRatio.calculate {Interval : Type} [DecidableEq Interval] (risk_free_return : Rat) (mean_return : Rat) (std_dev_loss_returns : Rat) (returns_period : Interval) : SortinoRatio Interval :=
   (if (std_dev_loss_returns = 0) then
     { value := (match (Decimal.cmp mean_return risk_free_return) with
     | Ordering.Greater =>
@@ -721,7 +713,7 @@ def SortinoRatio.calculate {Interval : Type} [DecidableEq Interval] (risk_free_r
      { value := ratio, interval := returns_period : SortinoRatio Interval }))
 
 /-- generated from `impl SortinoRatio :: fn scale` (barter/src/statistic/metric/sortino.rs:54) -/
-def SortinoRatio.scale {Interval : Type} [DecidableEq Interval] {TargetInterval : Type} [DecidableEq TargetInterval] (TargetInterval_TimeInterval : TimeInterval TargetInterval) (Interval_TimeInterval : TimeInterval Interval) (decimal_sqrt : Rat → Option Rat) (self : SortinoRatio Interval) (target : TargetInterval) : SortinoRatio TargetInterval :=
+@[gen_metrics] def SortinoRatio.scale {Interval : Type} [DecidableEq Interval] {TargetInterval : Type} [DecidableEq TargetInterval] (TargetInterval_TimeInterval : TimeInterval TargetInterval) (Interval_TimeInterval : TimeInterval Interval) (decimal_sqrt : Rat → Option Rat) (self : SortinoRatio Interval) (target : TargetInterval) : SortinoRatio TargetInterval :=
   let target_secs : Rat := (((Int.tdiv (TargetInterval_TimeInterval.interval target) 1000) : Int) : Rat)
   let current_secs : Rat := (((Int.tdiv (Interval_TimeInterval.interval self.interval) 1000) : Int) : Rat)
   let scale : Rat := (match (decimal_sqrt (match (Decimal.checked_div (Decimal.abs target_secs) (Decimal.abs current_secs)) with | some some_1 => some_1 | none => Decimal.MAX)) with | some some_2 => some_2 | none => Rust.unreachable)
@@ -736,7 +728,7 @@ structure CalmarRatio (Interval : Type) where
   deriving DecidableEq, Repr
 
 /-- generated from `impl CalmarRatio :: fn calculate` (barter/src/statistic/metric/calmar.rs:24) -/
-def CalmarRatio.calculate {Interval : Type} [DecidableEq Interval] (risk_free_return : Rat) (mean_return : Rat) (max_drawdown : Rat) (returns_period : Interval) : CalmarRatio Interval :=
+@[gen_metrics] def CalmarRatio.calculate {Interval : Type} [DecidableEq Interval] (risk_free_return : Rat) (mean_return : Rat) (max_drawdown : Rat) (returns_period : Interval) : CalmarRatio Interval :=
   (if (max_drawdown = 0) then
     { value := (match (Decimal.cmp mean_return risk_free_return) with
     | Ordering.Greater =>
@@ -751,7 +743,7 @@ def CalmarRatio.calculate {Interval : Type} [DecidableEq Interval] (risk_free_re
      { value := ratio, interval := returns_period : CalmarRatio Interval }))
 
 /-- generated from `impl CalmarRatio :: fn scale` (barter/src/statistic/metric/calmar.rs:57) -/
-def CalmarRatio.scale {Interval : Type} [DecidableEq Interval] {TargetInterval : Type} [DecidableEq TargetInterval] (TargetInterval_TimeInterval : TimeInterval TargetInterval) (Interval_TimeInterval : TimeInterval Interval) (decimal_sqrt : Rat → Option Rat) (self : CalmarRatio Interval) (target : TargetInterval) : CalmarRatio TargetInterval :=
+@[gen_metrics] def CalmarRatio.scale {Interval : Type} [DecidableEq Interval] {TargetInterval : Type} [DecidableEq TargetInterval] (TargetInterval_TimeInterval : TimeInterval TargetInterval) (Interval_TimeInterval : TimeInterval Interval) (decimal_sqrt : Rat → Option Rat) (self : CalmarRatio Interval) (target : TargetInterval) : CalmarRatio TargetInterval :=
   let target_secs : Rat := (((Int.tdiv (TargetInterval_TimeInterval.interval target) 1000) : Int) : Rat)
   let current_secs : Rat := (((Int.tdiv (Interval_TimeInterval.interval self.interval) 1000) : Int) : Rat)
   let scale : Rat := (match (decimal_sqrt (match (Decimal.checked_div (Decimal.abs target_secs) (Decimal.abs current_secs)) with | some some_1 => some_1 | none => Decimal.MAX)) with | some some_2 => some_2 | none => Rust.unreachable)
@@ -766,11 +758,11 @@ structure RateOfReturn (Interval : Type) where
   deriving DecidableEq, Repr
 
 /-- generated from `impl RateOfReturn :: fn calculate` (barter/src/statistic/metric/rate_of_return.rs:22) -/
-def RateOfReturn.calculate {Interval : Type} [DecidableEq Interval] (mean_return : Rat) (returns_period : Interval) : RateOfReturn Interval :=
+@[gen_metrics] def RateOfReturn.calculate {Interval : Type} [DecidableEq Interval] (mean_return : Rat) (returns_period : Interval) : RateOfReturn Interval :=
   { value := mean_return, interval := returns_period : RateOfReturn Interval }
 
 /-- generated from `impl RateOfReturn :: fn scale` (barter/src/statistic/metric/rate_of_return.rs:38) -/
-def RateOfReturn.scale {Interval : Type} [DecidableEq Interval] {TargetInterval : Type} [DecidableEq TargetInterval] (TargetInterval_TimeInterval : TimeInterval TargetInterval) (Interval_TimeInterval : TimeInterval Interval) (self : RateOfReturn Interval) (target : TargetInterval) : RateOfReturn TargetInterval :=
+@[gen_metrics] def RateOfReturn.scale {Interval : Type} [DecidableEq Interval] {TargetInterval : Type} [DecidableEq TargetInterval] (TargetInterval_TimeInterval : TimeInterval TargetInterval) (Interval_TimeInterval : TimeInterval Interval) (self : RateOfReturn Interval) (target : TargetInterval) : RateOfReturn TargetInterval :=
   let target_secs : Rat := (((Int.tdiv (TargetInterval_TimeInterval.interval target) 1000) : Int) : Rat)
   let current_secs : Rat := (((Int.tdiv (Interval_TimeInterval.interval self.interval) 1000) : Int) : Rat)
   let scale : Rat := (match (Decimal.checked_div (Decimal.abs target_secs) (Decimal.abs current_secs)) with | some some_1 => some_1 | none => Decimal.MAX)
@@ -789,11 +781,11 @@ inductive LiveClock where
   deriving DecidableEq, Repr
 
 /-- generated from `impl EngineClock for LiveClock :: fn time` (barter/src/engine/clock.rs:30) -/
-def LiveClock.time (utc_now : Int) (self : LiveClock) : Int :=
+@[gen_clock] def LiveClock.time (utc_now : Int) (self : LiveClock) : Int :=
   utc_now
 
 /-- generated from `impl Processor<&Event> for LiveClock :: fn process` (barter/src/engine/clock.rs:38) -/
-def LiveClock.process {Event : Type} [DecidableEq Event] (self : LiveClock) (_ : Event) : LiveClock :=
+@[gen_clock] def LiveClock.process {Event : Type} [DecidableEq Event] (self : LiveClock) (_ : Event) : LiveClock :=
   self
 
 /-- generated from `struct HistoricalClockInner` (barter/src/engine/clock.rs:50) -/
@@ -808,11 +800,11 @@ structure HistoricalClock where
   deriving DecidableEq, Repr
 
 /-- generated from `impl HistoricalClock :: fn new` (barter/src/engine/clock.rs:57) -/
-def HistoricalClock.new (utc_now : Int) (last_exchange_time : Int) : HistoricalClock :=
+@[gen_clock] def HistoricalClock.new (utc_now : Int) (last_exchange_time : Int) : HistoricalClock :=
   { inner := { time_exchange_last := last_exchange_time, time_live_last_event := utc_now : HistoricalClockInner } : HistoricalClock }
 
 /-- generated from `impl EngineClock for HistoricalClock :: fn time` (barter/src/engine/clock.rs:68) -/
-def HistoricalClock.time (utc_now : Int) (self : HistoricalClock) : Int :=
+@[gen_clock] def HistoricalClock.time (utc_now : Int) (self : HistoricalClock) : Int :=
   let lock : HistoricalClockInner := self.inner
   let time_live_last_event : Int := lock.time_live_last_event
   let time_exchange_last : Int := lock.time_exchange_last
@@ -823,7 +815,7 @@ def HistoricalClock.time (utc_now : Int) (self : HistoricalClock) : Int :=
     time_exchange_last)
 
 /-- generated from `impl Processor<&Event> for HistoricalClock :: fn process` (barter/src/engine/clock.rs:91) -/
-def HistoricalClock.process {Event : Type} [DecidableEq Event] (Event_TimeExchange : TimeExchange Event) (utc_now : Int) (self : HistoricalClock) (event : Event) : HistoricalClock :=
+@[gen_clock] def HistoricalClock.process {Event : Type} [DecidableEq Event] (Event_TimeExchange : TimeExchange Event) (utc_now : Int) (self : HistoricalClock) (event : Event) : HistoricalClock :=
   (match (Event_TimeExchange.time_exchange event) with
   | none =>
     self
